@@ -481,6 +481,9 @@ def cname(r, n):
     o = r.objs[n[1]]
     return f"NCache {cnat(n[1])} {cnat(r.qid(o.kind, o.native, n[2]))}"
 
+TALLY = {}
+def tally(k, n=1): TALLY[k] = TALLY.get(k, 0) + n
+
 def run_hist(inp):
     r = Runner()
     aux_before = None
@@ -557,6 +560,20 @@ def run_hist(inp):
         py_ok = False
         detail = "caller-owned object outside the model changed: " + "; ".join(aux_bad + ["default-argument singleton " + x for x in single_bad])
     changed_names = [(list(n), why) for obs, ch in out for n, c, why in ch]
+    for s_ in steps:
+        tally("op:" + s_["o"] + (":" + s_["cls"] if s_["o"] == "construct" else "") + (":" + s_["f"] if s_["o"] == "arith" else ""))
+    seen_deriv = set(); reread = set()
+    for s_ in steps:
+        if s_["o"] in ("arith", "slice", "copy", "trim", "alias"): seen_deriv.add(s_["j"])
+        if s_["o"] == "read":
+            if (s_["j"], s_["q"]) in reread: tally("repeated cached read")
+            reread.add((s_["j"], s_["q"]))
+            if s_["j"] in seen_deriv: tally("cached read on a source after a derivation from it")
+    for o_ in r.objs:
+        tally("object:" + o_.kind + (":native" if o_.native else ":slim"))
+    tally("history with a changed name (model-predicted or not)", 1 if changed_names else 0)
+    tally("histories in the D8 finding class", 1 if r.finding else 0)
+    tally("raised ArrayException on construction", sum(1 for o_, _ in out if o_[0] == "raise"))
     reads = sum(1 for s in steps if s["o"] in ("read", "plain", "values_masked", "maprecon", "peek_in"))
     derivs = sum(1 for s in steps if s["o"] in ("arith", "slice", "copy", "trim", "alias", "valued"))
     res = {"coq": coq, "out": {"obs": [o for o, _ in out][-3:], "changed": changed_names, "qids": {f"{k[0]}/{int(k[1])}/{k[2]}": v for k, v in r.qids.items()}},
@@ -640,20 +657,31 @@ def run_inv(inp):
     t1, *_ = make_inversion(cfg); F = np.array(t1.curvature_matrix)
     t2, *_ = make_inversion(cfg); Hm = np.array(t2.regularization_matrix)
     t3, *_ = make_inversion(cfg); FR = np.array(t3.curvature_reg_matrix)
-    preload = bool(inp["preload"])
-    P = F.copy() if preload else None
-    inv, ds, mappers, owned = make_inversion(cfg, preload_F=P)
+    pre = inp["pre"]                      # "PNone" | "PCurv" | "PDiag"
+    D = U = np.zeros((1, 1))
+    if cfg["w_tilde"]:
+        t4, *_ = make_inversion(cfg); D = np.array(t4._curvature_matrix_mapper_diag)
+        t5, *_ = make_inversion(cfg); U = np.array(t5._curvature_matrix_multi_mapper)
+    P = F.copy() if pre == "PCurv" else None
+    PD = D.copy() if pre == "PDiag" else None
+    aa = import_aa()
+    ds, mappers, settings, owned = build_graph(cfg)
+    kw = {}
+    if P is not None: kw["preloads"] = aa.Preloads(curvature_matrix=P)
+    if PD is not None: kw["preloads"] = aa.Preloads(curvature_matrix_mapper_diag=PD)
+    inv = aa.Inversion(dataset=ds, linear_obj_list=mappers, settings=settings, **kw)
     owned_fp = leaves(owned)
     out = []
     for q in inp["qs"]:
         if q == "QF": out.append(bits(inv.curvature_matrix))
         elif q == "QFR": out.append(bits(inv.curvature_reg_matrix))
-        else: out.append(bits(P))
+        elif q == "QPre": out.append(bits(P))
+        else: out.append(bits(PD))
     bad = leaves_changed(owned_fp, leaves(owned))
-    coq = (f"(KInv {cbool(preload)} {carr(bits(F))} {carr(bits(Hm))} {carr(bits(FR))} {clist(inp['qs'])} "
+    coq = (f"(KInv {pre} {carr(bits(F))} {carr(bits(Hm))} {carr(bits(FR))} {carr(bits(D))} {carr(bits(U))} {clist(inp['qs'])} "
            f"{clist([carr(o) for o in out])})")
     res = {"coq": coq, "out": [zlib.crc32(str(o).encode()) for o in out], "py_ok": None if not bad else False,
-           "nontrivial": len(inp["qs"]) >= 2, "kind": "inv:" + type(inv).__name__ + (":preload" if preload else "")}
+           "nontrivial": len(inp["qs"]) >= 2, "kind": "inv:" + type(inv).__name__ + ":" + pre + f":{len(mappers)}mappers"}
     if bad: res["detail"] = "caller-owned input changed: " + ",".join(bad[:4])
     return res
 
@@ -1044,15 +1072,19 @@ def gen_inputs(tier, rng):
         f = rng.choice(flav)
         n = rng.randint(6, 26) if f != "settings" else rng.randint(4, 9)
         yield {"op": "hist", "tag": f, "steps": gen_history(rng, n, f, allow_d8=rng.random() < 0.35)}
-    # inversions: single regularization (the in-place += path), with / without a preloaded curvature matrix
+    # inversions: reads of curvature_matrix / curvature_reg_matrix (single regularization: the in-place += path; two: np.add),
+    # with no preload / a preloaded curvature matrix / a preloaded block-diagonal matrix (w-tilde only)
     for k in range(400 if big else 40):
         cfg = rand_cfg(rng)
-        cfg["mappers"] = [[3, 3, rng.choice([1.0, 2.0])]]
         cfg["positive"] = False
         cfg["preloads"] = []
-        preload = rng.random() < 0.5
-        qs = [rng.choice(["QF", "QFR"] + (["QPre"] if preload else [])) for _ in range(rng.randint(2, 7))]
-        yield {"op": "inv", "cfg": cfg, "preload": preload, "qs": qs}
+        if len(cfg["mappers"]) == 1 or rng.random() < 0.5: cfg["mappers"][-1][2] = cfg["mappers"][-1][2] or 1.0
+        pre = rng.choice(["PNone", "PCurv", "PDiag"] if cfg["w_tilde"] else ["PNone", "PCurv"])
+        extra = {"PNone": [], "PCurv": ["QPre"], "PDiag": ["QPreDiag"]}[pre]
+        qs = [rng.choice(["QF", "QFR"] + extra) for _ in range(rng.randint(2, 7))]
+        yield {"op": "inv", "cfg": cfg, "pre": pre, "qs": qs}
+    yield {"op": "inv", "cfg": {"shape": [5, 6], "holes": [[2, 2]], "data": list(range(30)), "noise": [2] * 30, "mappers": [[3, 3, 1.0], [2, 2, None]],
+                               "w_tilde": True, "positive": False, "sub": 1, "preloads": []}, "pre": "PDiag", "qs": ["QF", "QPreDiag", "QFR", "QF", "QPreDiag"]}
     for k in range(300 if big else 30):
         cfg = rand_cfg(rng)
         who = ["inv"] * 6 + ["mapper0", "mapper1", "ds", "grids", "mask"]
@@ -1099,7 +1131,7 @@ def gen_inputs(tier, rng):
                "seed": seed, "states": [rng.randint(0, 10 ** 6) for _ in range(3)]}
 
 def extra_evidence():
-    return {"modelled_operations": ["ONew", "OConstruct(Array2D|Grid2D|VectorYX2D|Kernel2D|Visibilities|Mask2D|MapperRectangular)", "OAlias(Imaging)",
+    return {"distribution": dict(sorted(TALLY.items())),"modelled_operations": ["ONew", "OConstruct(Array2D|Grid2D|VectorYX2D|Kernel2D|Visibilities|Mask2D|MapperRectangular)", "OAlias(Imaging)",
                                     "OArith", "OSlice", "OCopy", "OTrim", "ORead(cached_property)", "OPlain", "OPeekIn", "OPeekObj",
                                     "OValued(MapperValued)", "OValuesMasked", "OMapRecon", "OInterf", "OImaging"],
             "quantities": {k: {"cached": sorted(v.cached), "plain": v.plain} for k, v in KINDS.items()}}
